@@ -26,6 +26,10 @@ var Rules = []report.Rule{
 	{ID: "V17", Floor: 300, Props: []string{"C12", "C18"}, Text: "the ran flags are sync/atomic values used only through their methods"},
 	{ID: "V8", Floor: 1000, Props: []string{"C05", "C06"}, Text: "exactly one unconditional Wait; no return between NewScheduler and Wait; no Enqueue after Wait"},
 	{ID: "T2", Floor: 1000, Props: []string{"C15"}, Text: "in every expanded variant a user expression is printed only as its hoisted variable; the raw expression text appears only in the prologue, as `<variable> := <raw>` once per recorded expression; no ast.Expr/types.Type value is printed bare"},
+	{ID: "V14", Floor: 30, Props: []string{"C15", "C02"}, Text: "(regenerated corpora) the hoisted definitions at the head of the generated closure are exactly the argument expressions of the source directive — once each, in source order, with the source text — nothing else defines a hoisted name, and no generated identifier is in scope there"},
+	{ID: "V15", Floor: 3, Props: []string{"C13"}, Text: "(regenerated corpora) cff succeeds on every corpus package, every generated package type-checks without the cff tag, and no call of a code-generation directive remains in it"},
+	{ID: "V19", Floor: 4, Props: []string{"C16"}, Text: "(regenerated corpora) every top-level declaration of the source file re-appears in the generated file, textually identical (go/printer, whitespace-normalised) except at the directive call sites; every source import is kept"},
+	{ID: "V20", Floor: 4, Props: []string{"C20"}, Text: "(regenerated corpora) base-mode and source-map-mode outputs of the same file are the same token stream once comments (incl. line directives) are dropped"},
 	{ID: "V16", Floor: 1000, Props: []string{"C13", "C20", "C10", "C02"}, Text: "every expanded directive parses and type-checks under adversarial import aliases"},
 }
 
@@ -93,6 +97,7 @@ func runOneInto(in *Instance, s *report.Sink) {
 	if len(x.Problems) > 0 {
 		return
 	}
+	rc.prologue()
 	rc.inventory()
 	rc.panicGuard()
 	rc.errorPassthrough()
